@@ -41,6 +41,7 @@ type Ctx struct {
 	keyEval    *keyEvaluator
 	roles      *Roles
 	km         *keyModel
+	funcTables map[*ssa.Global][]*ssa.Function
 
 	// statistics for evidence
 	NPackages int
